@@ -155,7 +155,7 @@ fn line_bounds(src: &str, off: usize) -> (usize, usize) {
 /// Rule-violating statements (one per documented rule that can be broken by inserting a statement).
 /// `{I}` = indentation. Every base function starts with `imm_x = 0` and `opt_v = Some(1)`; Pt, Color, helper_ok,
 /// takes_int are declared by the base program.
-pub const RULES: [(&str, &str); 16] = [
+pub const RULES: [(&str, &str); 18] = [
     ("ctor-no-arguments", "{I}zz_tmp = Pt()\n"),
     ("ctor-wrong-field-type", "{I}zz_tmp = Pt(x=1, y=\"two\")\n"),
     ("unknown-name", "{I}zz_tmp = zz_unknown_name + 1\n"),
@@ -165,6 +165,8 @@ pub const RULES: [(&str, &str); 16] = [
     ("reassign-immutable", "{I}imm_x = 5\n"),
     ("compound-immutable", "{I}imm_x += 1\n"),
     ("return-wrong-type", "{I}return (1, 2, 3)\n"),
+    ("return-nothing", "{I}return\n"),
+    ("mutating-method-on-immutable", "{I}zz_imm_box = Box(w=1, h=2)\n{I}zz_imm_box.grow(1)\n"),
     ("try-on-non-result", "{I}zz_tmp = imm_x?\n"),
     ("try-in-non-result-fn", "{I}zz_tmp = helper_ok(1)?\n"),
     ("match-missing-variant", "{I}match opt_v:\n{I}    Some(zz_q) =>\n{I}        pass\n"),
@@ -263,6 +265,9 @@ pub fn run(out: &mut Out, tier: &str, seed: u64, _scratch: &str) {
                 // `?` is legal inside a function returning Result: that rule is about the other functions
                 if *rule == "try-in-non-result-fn" && b.returns.starts_with("Result") { continue; }
                 if *rule == "return-wrong-type" && b.returns.starts_with('(') { continue; }
+                // a bare `return` is legal where nothing is returned
+                if *rule == "return-nothing" && (b.returns.is_empty() || b.returns == "None" || b.returns == "Unit" || b.returns == "()") { continue; }
+                if *rule == "mutating-method-on-immutable" && !base.contains("def grow(mut self") { continue; }
                 let text = snippet.replace("{I}", indent);
                 let edited = format!("{}{}{}", &base[..ls], text, &base[ls..]);
                 let (a, e) = (ls, ls + text.len());
@@ -341,7 +346,18 @@ pub fn run(out: &mut Out, tier: &str, seed: u64, _scratch: &str) {
     for _ in 0..n_match {
         let subject = rng.below(3); // 0 enum, 1 Option, 2 Result
         let variants: Vec<String> = match subject {
-            0 => (0..2 + rng.below(3)).map(|i| format!("V{i}")).collect(),
+            0 => {
+                // names related by prefix / suffix / containment: a coverage test that compares names loosely
+                // (ends_with, starts_with, contains, case-insensitively) confuses them
+                const POOL: [&str; 14] = ["Open", "HalfOpen", "OpenHalf", "Op", "Closed", "Close", "V", "VV", "V0", "V1", "A", "AB", "BA", "Aa"];
+                let n = 2 + rng.below(3) as usize;
+                let mut names: Vec<String> = Vec::new();
+                while names.len() < n {
+                    let c = POOL[rng.below(POOL.len() as u64) as usize].to_string();
+                    if !names.contains(&c) { names.push(c); }
+                }
+                names
+            }
             1 => vec!["Some".into(), "None".into()],
             _ => vec!["Ok".into(), "Err".into()],
         };
@@ -406,6 +422,97 @@ pub fn run(out: &mut Out, tier: &str, seed: u64, _scratch: &str) {
         };
         out.case(&format!("c03 match {} {} {}", variants.join(","), (subject == 1) as u8, enc.join(",")), &verdict);
     }
-    out.meta(&serde_json::json!({"scope_programs": n_scope, "match_programs": n_match}));
+    // (e) call arguments: signatures of 1-4 parameters (primitive, collection, model, class, trait-typed), function
+    // and method calls, positional and keyword arguments, 0-2 arguments of a type the parameter does not accept
+    const TYS: [(&str, &str); 9] = [("int", "7"), ("str", "\"s\""), ("bool", "True"), ("float", "1.5"), ("List[int]", "[1, 2]"),
+        ("Pt", "Pt(x=1, y=2)"), ("Box", "Box(w=1, h=2)"), ("Cat", "Cat(n=1)"), ("Option[int]", "Some(3)")];
+    const PARAM_TYS: [&str; 10] = ["int", "str", "bool", "float", "List[int]", "Pt", "Box", "Cat", "Option[int]", "Shape"];
+    let adopts = |a: &str, e: &str| a == e || (e == "Shape" && (a == "Box" || a == "Sq"));
+    let n_call = if tier == "thorough" { 1500 } else { 300 };
+    let mut n_call_wrong = 0u64;
+    for ci in 0..n_call {
+        let np = 1 + rng.below(4) as usize;
+        let params: Vec<(String, &str)> = (0..np).map(|i| (format!("p{i}"), PARAM_TYS[rng.below(PARAM_TYS.len() as u64) as usize])).collect();
+        // argument types: fitting, then up to two positions replaced by a type the parameter does not accept
+        let mut arg_tys: Vec<(&str, &str)> = params.iter().map(|(_, t)| if *t == "Shape" { if rng.chance(1, 2) { ("Box", "Box(w=1, h=2)") } else { ("Sq", "Sq(s=2)") } } else { *TYS.iter().find(|(n, _)| n == t).unwrap() }).collect();
+        let n_wrong = [0usize, 1, 1, 1, 2][rng.below(5) as usize].min(np);
+        let mut wrong_at: Vec<usize> = Vec::new();
+        while wrong_at.len() < n_wrong {
+            let j = rng.below(np as u64) as usize;
+            if wrong_at.contains(&j) { continue; }
+            let cands: Vec<&(&str, &str)> = TYS.iter().filter(|(n, _)| !adopts(n, params[j].1) && !(*n == "int" && params[j].1 == "float") && !(*n == "float" && params[j].1 == "int")).collect();
+            arg_tys[j] = *cands[rng.below(cands.len() as u64) as usize];
+            wrong_at.push(j);
+        }
+        // the last `nk` arguments are written as keywords, in a shuffled order
+        let nk = if rng.chance(1, 3) { rng.below(np as u64 + 1) as usize } else { 0 };
+        let mut order: Vec<usize> = (0..np).collect();
+        if nk > 1 {
+            let tail = &mut order[np - nk..];
+            for i in (1..tail.len()).rev() { let j = rng.below(i as u64 + 1) as usize; tail.swap(i, j); }
+        }
+        let is_method = ci % 2 == 1;
+        let sig = params.iter().map(|(n, t)| format!("{n}: {t}")).collect::<Vec<_>>().join(", ");
+        let mut src = String::from("model Pt:\n    x: int\n    y: int\n\ntrait Shape:\n    def area(self) -> int: ...\n\nclass Box with Shape:\n    w: int\n    h: int\n\n    def area(self) -> int:\n        return self.w * self.h\n\nclass Sq extends Box:\n    s: int\n\nclass Cat:\n    n: int\n\n");
+        src.push_str(&format!("def callee({sig}) -> int:\n    return 0\n\nclass Host:\n    v: int\n\n    def meth(self, {sig}) -> int:\n        return 0\n\ndef main() -> None:\n    h = Host(v=1)\n"));
+        let mut line = String::from(if is_method { "    r = h.meth(" } else { "    r = callee(" });
+        let line_start = src.len();
+        let mut spans: Vec<(usize, usize)> = Vec::new(); // per written argument: span of its value
+        let mut enc_args: Vec<String> = Vec::new();
+        for (w, &pi) in order.iter().enumerate() {
+            if w > 0 { line.push_str(", "); }
+            let kw = w >= np - nk;
+            if kw { line.push_str(&format!("{}=", params[pi].0)); }
+            let a = line_start + line.len();
+            line.push_str(arg_tys[pi].1);
+            spans.push((a, line_start + line.len()));
+            enc_args.push(if kw { format!("{}={}", params[pi].0, arg_tys[pi].0) } else { arg_tys[pi].0.to_string() });
+        }
+        line.push_str(")\n");
+        src.push_str(&line);
+        // Sq(s=2) lacks Box's fields in the constructor: give Sq its own complete constructor call instead
+        let src = src.replace("Sq(s=2)", "Sq(w=1, h=1, s=2)");
+        // recompute spans after the replacement (each replaced occurrence before a span start moves it by 10 bytes)
+        let grow = "Sq(w=1, h=1, s=2)".len() - "Sq(s=2)".len();
+        let mut adj: Vec<(usize, usize)> = Vec::new();
+        {
+            let mut moved = 0usize;
+            for (w, &pi) in order.iter().enumerate() {
+                let (a, e) = spans[w];
+                let is_sq = arg_tys[pi].0 == "Sq";
+                adj.push((a + moved, e + moved + if is_sq { grow } else { 0 }));
+                if is_sq { moved += grow; }
+            }
+        }
+        let verdict = match catch(|| check(&src)) {
+            Err(m) => format!("panic {m}"),
+            Ok(Err(m)) => format!("unparsable {}", m.replace(' ', "_")),
+            Ok(Ok(Ok(()))) => "accepted".to_string(),
+            Ok(Ok(Err(errs))) => {
+                let mut flagged: Vec<usize> = Vec::new();
+                let mut other: Option<String> = None;
+                for (m, s0, _e0) in &errs {
+                    match adj.iter().position(|(a, e)| *s0 >= *a && *s0 < *e) {
+                        Some(w) if m.starts_with("Type mismatch") => { if !flagged.contains(&w) { flagged.push(w); } }
+                        _ => { if other.is_none() { other = Some(m.replace(' ', "_")); } }
+                    }
+                }
+                flagged.sort();
+                match other {
+                    Some(o) => format!("other-error {o}"),
+                    None => format!("flag {}", flagged.iter().map(|x| x.to_string()).collect::<Vec<_>>().join(",")),
+                }
+            }
+        };
+        if n_wrong > 0 { n_call_wrong += 1; }
+        // ground truth for the oracle: indices (in writing order) of the arguments the generator made wrong
+        let mut truth: Vec<usize> = order.iter().enumerate().filter(|(_, pi)| wrong_at.contains(pi)).map(|(w, _)| w).collect();
+        truth.sort();
+        out.case(&format!("c03 call {} {} {} {}", if is_method { "method" } else { "function" },
+            params.iter().map(|(n, t)| format!("{n}:{t}")).collect::<Vec<_>>().join(";"),
+            enc_args.join(";"),
+            if truth.is_empty() { "-".to_string() } else { truth.iter().map(|x| x.to_string()).collect::<Vec<_>>().join(",") }), &verdict);
+    }
+    out.meta(&serde_json::json!({"scope_programs": n_scope, "match_programs": n_match, "call_programs": n_call, "call_programs_with_wrong_argument": n_call_wrong}));
     out.meta(&serde_json::json!({"files": files.len(), "expr_edits": n_expr, "stmt_edits": n_stmt, "position_labels": labels}));
 }
